@@ -48,7 +48,7 @@ def inject_all(units, root):
         kani_run.write_stable(p, data)
 
 
-def run(unit, repo, root, synced=False, group=None):
+def run(unit, repo, root, synced=False, group=None, tier=None):
     """-> {"status": found|none|error, "detail": str, "bound": str, "cmd": str, "wall_s": float}"""
     if unit not in WITNESS or not os.path.isfile(os.path.join(root, "witness", unit + ".rs")):
         return {"status": "error", "detail": "no witness module for unit %s" % unit}
@@ -57,7 +57,7 @@ def run(unit, repo, root, synced=False, group=None):
     if not synced:
         kani_run.sync(repo)
     inject_all(group or [unit], root)
-    env = dict(os.environ, CARGO_NET_OFFLINE="true")
+    env = dict(os.environ, CARGO_NET_OFFLINE="true", VERIF_TIER=tier or os.environ.get("VERIF_TIER", "quick"))
     cmd = ["cargo", "test", "--offline", "--lib", "--target-dir", kani_run.TEST_TARGET,
            "verif_witness_%s::verif_witness" % unit, "--", "--nocapture", "--test-threads", "1"]
     try:
@@ -67,6 +67,8 @@ def run(unit, repo, root, synced=False, group=None):
     out = pr.stdout + "\n" + pr.stderr
     with open("/var/tmp/ilverif/witness_%s.log" % unit, "w") as f:
         f.write(out)
+    if (tier or os.environ.get("VERIF_TIER")) == "thorough":
+        bound += " [thorough tier: enlarged, see witness/%s.rs]" % unit
     res = {"bound": bound, "cmd": " ".join(cmd), "wall_s": round(time.time() - t0, 1)}
     found = re.findall(r"VERIF-WITNESS//FOUND ([^\n]*)", out)
     if found:
